@@ -10,6 +10,12 @@ STANDING_ASSUMPTIONS = [
 ]
 
 PROPERTIES = {
+    'C06': {
+        'units': ['filter', 'tags'],
+        'sample_functions': ['Filter::event_matches', 'Tags::matches', 'Tags::get_string'],
+        'not_decided': [],
+        'assumptions': ['Event accessors id/pubkey/kind/created_at/tags are used by contract (their bodies are under proof in unit `event`)'],
+    },
     'C03': {
         'units': ['utf8', 'escape', 'lex', 'hexread', 'tagsjson', 'event_parse', 'filter_parse'],
         'sample_functions': ['next_code_point', 'json_unescape', 'read_u64', 'read_id'],
